@@ -153,7 +153,8 @@ impl<'de> Deserialize<'de> for Bytes {
             where
                 A: serde::de::SeqAccess<'de>,
             {
-                let mut buf = Vec::with_capacity(seq.size_hint().unwrap_or_default());
+                // Do not trust the declared length for the allocation, it comes from the input.
+                let mut buf = Vec::with_capacity(seq.size_hint().unwrap_or_default().min(4096));
                 while let Some(byte) = seq.next_element()? {
                     buf.push(byte);
                 }
